@@ -69,7 +69,10 @@ namespace options
         void usage(std::ostream& s) const;
 
     private:
-        const parser& parser_;
+        friend class parser;
+
+        // the parser, which owns this group. Gets updated, when the parser is moved.
+        const parser* parser_;
         std::string name_;
         std::string description_;
 
